@@ -2,7 +2,7 @@
 from __future__ import annotations
 
 import ast
-from typing import Dict, List, Optional, Set
+from typing import Dict, List, Optional, Set, Tuple
 
 from ..cfg import NORMAL, Node, handler_classes
 from ..core import Ctx
@@ -243,11 +243,48 @@ def r7_other_committers(ctx: Ctx, rid: str = "C08.R7") -> None:
            "pointer's ETag and flip the pointer", nontrivial=False)
 
 
+def etag_same_response(ctx: Ctx, rf: FunctionInfo) -> Tuple[bool, List[str]]:
+    """(content and ETag are two fields of ONE get_object response, the S3 requests the operation issues).  Looks through the
+    helpers the operation hands its work to (private per-key methods, `partial(self._get, key, lambda r: (...))`)."""
+    from .c20 import op_scopes
+    scopes = op_scopes(ctx, rf)
+    reqs: List[str] = []
+    for f in scopes:
+        for n in ctx.cfg(f).calls():
+            if n.id in ctx.cfg(f).reachable() and n.callee is not None and n.callee.kind == "prim" and n.callee.name.startswith("boto."):
+                reqs.append(n.callee.name)
+    pair_ok = False
+    for f in scopes:
+        sl = ctx.slicer(f)
+        g = ctx.cfg(f)
+        for x in ast.walk(f.node):
+            elts = x.elts if isinstance(x, ast.Tuple) and len(x.elts) == 2 else (x.args if isinstance(x, ast.Call) and len(x.args) == 2 and not x.keywords else None)
+            if elts is None:
+                continue
+            c0 = {c.value for c in ast.walk(elts[0]) if isinstance(c, ast.Constant)}
+            c1 = {c.value for c in ast.walk(elts[1]) if isinstance(c, ast.Constant)}
+            # the statement that evaluates x (not an enclosing try / loop / with node, whose ast contains it too)
+            hosts = [n for n in g.nodes if n.ast is not None and n.kind in ("stmt", "return", "call", "branch") and any(y is x for y in ast.walk(n.ast))]
+            host = min(hosts, key=lambda n: sum(1 for _ in ast.walk(n.ast)), default=None) if hosts else None  # type: ignore[arg-type]
+            if host is not None:
+                o0, o1 = sl.origins(elts[0], host.id), sl.origins(elts[1], host.id)
+                c0 |= {c for c in o0["consts"] if isinstance(c, str)}
+                c1 |= {c for c in o1["consts"] if isinstance(c, str)}
+                same_call = bool({id(c) for c in o0["calls"] if isinstance(c.func, ast.Attribute) and c.func.attr == "get_object"}
+                                 & {id(c) for c in o1["calls"] if isinstance(c.func, ast.Attribute) and c.func.attr == "get_object"})
+            else:
+                same_call = False
+            same_var = bool(names_in(elts[0]) & names_in(elts[1]))
+            if "Body" in c0 and "ETag" in c1 and (same_call or same_var):
+                pair_ok = True
+    return pair_ok and reqs.count("boto.get_object") >= 1 and not [r for r in reqs if r != "boto.get_object"], reqs
+
+
 def r9_cas_capability_consistent(ctx: Ctx, rid: str = "C08.R9") -> None:
     ctx.rule(rid, "one switch decides conditional writes: S3StorageBackend.supports_cas returns the very flag create_lock tests to "
              "hand out the conditional-write lock (use_conditional_writes) and nothing else - a backend that takes the CAS lock "
              "but flips the pointer unconditionally loses every update a stale holder overwrites; torn ETag reads are excluded: "
-             "read_file_with_etag takes content and ETag from ONE response", 3)
+             "read_file_with_etag takes content and ETag from ONE response", 2)
     s3 = ctx.prog.cls("storage_backend.S3StorageBackend")
     sc = s3.methods.get("supports_cas")
     cl = s3.methods.get("create_lock")
@@ -264,23 +301,10 @@ def r9_cas_capability_consistent(ctx: Ctx, rid: str = "C08.R9") -> None:
     rf = s3.methods.get("read_file_with_etag")
     if rf is None:
         raise AnalysisError("S3StorageBackend.read_file_with_etag vanished")
-    scopes = [rf] + list(rf.nested.values())
-    boto = [(f, n) for f in scopes for n in ctx.cfg(f).calls() if n.id in ctx.cfg(f).reachable() and n.callee is not None
-            and n.callee.kind == "prim" and n.callee.name.startswith("boto.")]
-    ctx.ob(rid, rf, "content and ETag come from one request", boto[0][1] if boto else None,
-           len(boto) == 1 and boto[0][1].callee.name == "boto.get_object",
-           f"S3 requests in read_file_with_etag: {[n.callee.name for _f, n in boto]} - a second request (HEAD for the ETag) can "
-           "describe a newer pointer than the content that was validated")
-    # the ETag returned is read off that response
-    for f, n in boto[:1]:
-        fg = ctx.cfg(f)
-        sl = ctx.slicer(f)
-        okr = False
-        for r in [x for x in fg.nodes if x.kind == "return" and x.id in fg.reachable() and x.ast is not None and isinstance(x.ast.value, ast.Tuple)]:  # type: ignore[union-attr]
-            et = r.ast.value.elts[-1]  # type: ignore[union-attr]
-            org = sl.origins(et, r.id)
-            okr = n.ast in org["calls"] and "ETag" in {c for c in org["consts"] if isinstance(c, str)}
-        ctx.ob(rid, f, "the ETag is the GET response's ETag", n, okr, "response['ETag'] of the same get_object")
+    same, reqs = etag_same_response(ctx, rf)
+    ctx.ob(rid, rf, "content and ETag come from one request", None, same,
+           f"S3 requests in read_file_with_etag: {reqs} - a second request (HEAD for the ETag) can describe a newer pointer than the "
+           "content that was validated; both values must be fields of the same get_object response")
 
 
 def r2(ctx: Ctx) -> None:
@@ -464,16 +488,5 @@ def r3(ctx: Ctx) -> None:
            "a retried conditional PUT after an ambiguous failure could conflict with its own first attempt")
     # read_file_with_etag returns the ETag of the SAME response as the body
     rf = ctx.fn("storage_backend.S3StorageBackend.read_file_with_etag")
-    ok = False
-    for nf in rf.nested.values():
-        ng = ctx.cfg(nf)
-        nsl = ctx.slicer(nf)
-        rets = [n for n in ng.nodes if n.kind == "return" and n.id in ng.reachable() and isinstance(n.ast, ast.Return)
-                and isinstance(n.ast.value, ast.Tuple) and len(n.ast.value.elts) == 2]
-        for r in rets:
-            a, b = r.ast.value.elts  # type: ignore[union-attr]
-            oa, ob_ = nsl.origins(a, r.id), nsl.origins(b, r.id)
-            gets_a = {c for c in oa["calls"] if isinstance(c.func, ast.Attribute) and c.func.attr == "get_object"}
-            gets_b = {c for c in ob_["calls"] if isinstance(c.func, ast.Attribute) and c.func.attr == "get_object"}
-            ok = bool(gets_a) and gets_a == gets_b and "ETag" in ob_["consts"] and "Body" in oa["consts"]
+    ok = etag_same_response(ctx, rf)[0]
     ctx.ob("C08.R3", rf, "body and ETag come from one GET response", None, ok, "the ETag describes exactly the bytes returned")
